@@ -4,9 +4,13 @@
 // What is under contract is the verifier's totality on the sizes of the proof it is handed: the proof comes from the
 // wire (its decoder accepts any vectors), so every size the verifier relies on must be one it checked. interpolate
 // needs one value per point (it reads y[i] for every point x[i]): a precondition, and therefore an obligation at the
-// verifier's call. The vectors of points and claimed values are slices of slices whose contents are not modelled
-// beyond "the same cell read twice holds the same value". The pairing check, the transcript, the polynomial helpers
-// and the relation the verifier establishes are not under contract here.
+// verifier's call; every index operation of the verifier is an obligation too. The vectors of points and claimed
+// values are slices of slices: "option functional-nested-slices" reads their rows as functions of the row index, so
+// the size check of iteration p is a fact about row p that later iterations and the postcondition can use.
+// Acceptance-implies-check: nil is returned only if all sizes agree (one digest, one point set and one vector of
+// claimed values per polynomial, one claimed value per point) and the single pairing check, made on (F, proof.WPrime)
+// against the lines of the verifying key, returned true without error. The transcript, the polynomial helpers and
+// the value of F are opaque calls: the relation the verifier establishes is not under contract.
 
 package shplonk
 
@@ -22,9 +26,17 @@ package shplonk
 //@ layer ring fr.Element
 //@ option opaque-calls
 //@ option nomerge
-//@ option index-panics-allowed
+//@ option functional-nested-slices
+//@ ghost pairok = false
+//@ ghost npair = 0
+//@ cut before call PairingCheckFixedQ #*
+//@ + invariant[pairing-arguments] len(callarg0) == 2 && callarg0[1] == proof.WPrime
+//@ cut after call PairingCheckFixedQ #*
+//@ + ghost pairok = callresult0 && isnil(callresult1)
+//@ + ghost npair = npair + 1
 //@ loop 0
-//@ + invariant[sets] 0 <= i && i <= len(points) && len(proof.ClaimedValues) == len(points) && len(digests) == len(points)
-//@ ensures[sizes] isnil(result) ==> len(proof.ClaimedValues) == len(points) && len(digests) == len(points)
+//@ + invariant[sets] 0 <= i && i <= len(points) && len(proof.ClaimedValues) == len(points) && len(digests) == len(points) && len(gammaiZTminusSiz) == len(points) && len(ri) == len(points) && forall(p, 0, i, len(proof.ClaimedValues[p]) == len(points[p]))
+//@ ensures[sizes] isnil(result) ==> len(proof.ClaimedValues) == len(points) && len(digests) == len(points) && forall(p, 0, len(points), len(proof.ClaimedValues[p]) == len(points[p]))
+//@ ensures[pairing] isnil(result) ==> pairok && npair == 1
 //@ modifies nothing
 //@ end
